@@ -180,6 +180,24 @@ def eval_cell(cell):
                     res.sample = {"component": component, "facets": {kk: facets[kk] for kk in facets if kk != "_fixed"},
                                   "fd_option": fd, "point": kind, "x": x, "gradient": o["impl"],
                                   "richardson_of_logd": o["ref"]}
+        # non-initial state: after the forward model's matrix was requested (get_matrix() caches it on the model), the
+        # gradient through that model is still the derivative of the same log-density
+        mdl = getattr(case.obj, "model", None)
+        if not fd and mdl is not None and hasattr(mdl, "get_matrix") and case.inside:
+            try:
+                mdl.get_matrix()
+                called = True
+            except Exception:
+                called = False
+            if called:
+                kind, x = case.inside[-1]
+                res.transitions += 1
+                o = E.observe(case, kind, x, fd, FD_EPS)
+                rec.add(rcomp, "gradient-after-get_matrix", rkeys, rfac, o)
+                _tally(res, component, "in", o)
+                if o["status"] in ("ok", "bad"):
+                    compared += 1
+                    res.evaluations += 1
         for kind, x in case.outside:
             res.transitions += 1
             o = E.observe_outside(case, kind, x)
